@@ -11,6 +11,16 @@ import (
 	"time"
 )
 
+var resetEvery = func() int {
+	if v := os.Getenv("VF_RESET_EVERY"); v != "" {
+		n, _ := strconv.Atoi(v)
+		if n > 0 {
+			return n
+		}
+	}
+	return 25
+}()
+
 type SatResult int
 
 const (
@@ -44,6 +54,7 @@ type Solver struct {
 	inScope bool
 
 	TimeoutMs int
+	pathsSinceReset int
 	OverrideMs int // one-shot cap for the next tactic query
 	tee       *os.File
 
@@ -154,8 +165,12 @@ func (s *Solver) BeginPath() {
 	}
 	// a long-lived z3 context slows down steadily (measured: 1.6 -> 6 ms/query over 100
 	// paths); a reset per path keeps queries at their fresh-context cost
-	s.send("(reset)")
-	s.sendOptions()
+	s.pathsSinceReset++
+	if s.pathsSinceReset >= resetEvery {
+		s.send("(reset)")
+		s.sendOptions()
+		s.pathsSinceReset = 0
+	}
 	s.send("(push 1)")
 	s.inScope = true
 	s.gen++
